@@ -713,6 +713,9 @@ func genC11(c *Ctx) any {
 		// time quadratic in the depth; 10 000 levels cost seconds outside a scheduled run and
 		// are therefore only used there.)
 		depth := []int{100, 1000, 10000, 10002}[r.Intn(4)]
+		if cs.Data.Spec.Heavy() && depth > 1000 {
+			depth = 1000 // every level hashes the operand's 64 KiB names again
+		}
 		text := string(dq.Text)
 		gb := ""
 		if i := strings.Index(text, " ; "); i >= 0 {
